@@ -50,6 +50,47 @@ class Path:
     writes: tuple = ()  # (parameter, final term) for parameters whose OBJECT the callee has modified in place
 
 
+_rab_cache: dict = {}
+
+
+def _returns_as_breaks(stmts: list) -> list:
+    """`for ..: .. return E` followed directly by `return E` (the same expression, no for-else): leaving the loop by that return is leaving it by
+    `break` and running into the return that follows.  One spelling is kept (break), so both describe the same loop."""
+    key = tuple(id(x) for x in stmts)
+    if key in _rab_cache:
+        return _rab_cache[key][1]
+    out = list(stmts)
+    changed = False
+    for i, st in enumerate(stmts[:-1]):
+        nx = stmts[i + 1]
+        if not (isinstance(st, ast.For) and not st.orelse and isinstance(nx, ast.Return) and nx.value is not None):
+            continue
+        want = ast.dump(nx.value)
+        hit = False
+
+        def rewrite(body: list) -> list:
+            nonlocal hit
+            res = []
+            for b in body:
+                if isinstance(b, ast.Return) and b.value is not None and ast.dump(b.value) == want:
+                    hit = True
+                    res.append(ast.copy_location(ast.Break(), b))
+                elif isinstance(b, ast.If):
+                    nb = ast.If(test=b.test, body=rewrite(b.body), orelse=rewrite(b.orelse))
+                    res.append(ast.copy_location(nb, b))
+                else:
+                    res.append(b)  # inner loops, try, with: a break there would leave something else
+            return res
+
+        nb_ = rewrite(st.body)
+        if hit:
+            out[i] = ast.copy_location(ast.For(target=st.target, iter=st.iter, body=nb_, orelse=[], type_comment=None), st)
+            changed = True
+    res_ = out if changed else stmts
+    _rab_cache[key] = (stmts, res_)  # keeps `stmts` alive so the ids stay unique
+    return res_
+
+
 @dataclass
 class State:
     env: dict[str, Term]
@@ -280,6 +321,16 @@ class Evaluator:
             typ = self.typeof(t) if h == "attr" else None
             if isinstance(typ, tuple) and typ and typ[0] in ("set", "frozenset", "list", "iter", "tuple") and len(typ) > 1:
                 return typ[1]
+        if (h == "meth" and not t[3] and not t[4]) or h == "attr":
+            # the repository's mixed graph holds Variables: its nodes, and both endpoints of the edges of either component
+            name, owner = t[2], t[1]
+            if name in ("nodes", "edges"):
+                if owner[0] == "attr" and owner[2] in ("directed", "undirected"):
+                    owner = owner[1]
+                    if self.typeof(owner) == ("cls", "y0.graph.NxMixedGraph"):
+                        return ("cls", "y0.dsl.Variable") if name == "nodes" else ("pair", ("cls", "y0.dsl.Variable"))
+                elif name == "nodes" and self.typeof(owner) == ("cls", "y0.graph.NxMixedGraph"):
+                    return ("cls", "y0.dsl.Variable")
         return None
 
     def cls_of(self, t: Term) -> Cls | None:
@@ -319,6 +370,7 @@ class Evaluator:
         """Returns list of (state, status, value, line); status in fall/return/raise/break/continue."""
         live = [state]
         done = []
+        stmts = _returns_as_breaks(stmts)
         for st in stmts:
             nxt = []
             for s in live:
@@ -862,9 +914,39 @@ class Evaluator:
                 env[name] = newv
         return env
 
-    def _bind_target(self, tgt: ast.expr, state: State) -> Term:
+    def _yields_pairs(self, it: Term | None, depth: int = 0) -> bool:
+        """The iterable's elements are 2-tuples by construction (edges of a networkx graph, combinations(_, 2), zip of two, items, enumerate)."""
+        if it is None or depth > 6:
+            return False
+        h = it[0]
+        if h == "meth" and it[2] in ("edges", "items", "in_edges", "out_edges") and not it[3] and not it[4]:
+            return True
+        if h == "attr" and it[2] == "edges":
+            return True
+        if h == "call" and isinstance(it[1], str):
+            tail = it[1].split(".")[-1]
+            if tail == "combinations" and len(it[2]) == 2 and it[2][1] == const(2):
+                return True
+            if tail in ("zip", "product") and len(it[2]) == 2 and not [k for k, _ in it[3] if k != "strict"]:
+                return True
+            if tail == "enumerate" and len(it[2]) == 1:
+                return True
+            if tail in ("list", "tuple", "iter", "set", "frozenset", "sorted", "reversed") and len(it[2]) == 1:
+                return self._yields_pairs(it[2][0], depth + 1)
+        if h in ("setof", "copyof"):
+            return self._yields_pairs(it[1], depth + 1)
+        et = self.elem_type(it)
+        return isinstance(et, tuple) and len(et) == 2 and et[0] == "tuple" and isinstance(et[1], (tuple, list)) and len(et[1]) == 2 and et[1][0] != "..." and et[1][1] != "..."
+
+    def _bind_target(self, tgt: ast.expr, state: State, it: Term | None = None) -> Term:
         """Bind loop/comprehension target to fresh bound variables; returns the target pattern term."""
         if isinstance(tgt, ast.Name):
+            if self._yields_pairs(it):
+                # `for edge in G.edges()`: the element is a pair, named by its components (edge[0], edge[1], *edge, `in edge` then read off)
+                a, b = self.fresh(tgt.id + "0_"), self.fresh(tgt.id + "1_")
+                state.env[tgt.id] = ("tuplelit", (a, b))
+                self._type_bound(("tuplelit", (a, b)), it)
+                return ("tuplelit", (a, b))
             v = self.fresh(tgt.id + "_")
             state.env[tgt.id] = v
             return v
@@ -876,6 +958,15 @@ class Evaluator:
         return v
 
     def _type_bound(self, pat: Term, it: Term) -> None:
+        et = self.elem_type(it)
+        if isinstance(et, tuple) and et[0] == "pair" and pat[0] == "tuplelit" and len(pat[1]) == 2:
+            for x in pat[1]:
+                if x[0] == "var":
+                    self.set_type(x, et[1])
+            return
+        if pat[0] == "var" and isinstance(et, tuple) and et[0] == "cls" and self.typeof(it) is None:
+            self.set_type(pat, et)
+            return
         typ = self.typeof(it)
         if isinstance(typ, tuple) and typ[0] in ("set", "frozenset", "list", "tuple", "iter") and len(typ) > 1:
             if pat[0] == "var" and typ[1] is not None:
@@ -885,7 +976,7 @@ class Evaluator:
         line = st.lineno
         body_state = s0.fork()
         base_conds = body_state.conds
-        pat = self._bind_target(st.target, body_state)
+        pat = self._bind_target(st.target, body_state, it)
         self._type_bound(pat, it)
         before = dict(body_state.env)
         try:
@@ -1456,6 +1547,62 @@ class Evaluator:
         return [(state, unknown("expr:" + type(e).__name__, line))]
 
     # -------------------------------------------------------------- names
+    _table_cache: dict = {}
+
+    def _constant_table(self, m: Module, name: str, v: ast.expr) -> Term | None:
+        """A module-level dict / tuple / list / set LITERAL of constants and references to the repository's functions and classes (a dispatch
+        table), which no code in the repository writes to: the name stands for the literal."""
+        key = (id(self.model), m.name, name)
+        if key in self._table_cache:
+            return self._table_cache[key]
+        self._table_cache[key] = None
+        if not isinstance(v, (ast.Dict, ast.Tuple, ast.List, ast.Set)):
+            return None
+
+        def closed(e: ast.expr) -> bool:
+            if isinstance(e, ast.Constant):
+                return True
+            if isinstance(e, ast.Name):
+                r = self.model.resolve_name(m, e.id)
+                return isinstance(r, (Func, Cls)) or (isinstance(r, tuple) and r[0] == "const" and isinstance(r[2], ast.Constant))
+            if isinstance(e, (ast.Tuple, ast.List, ast.Set)):
+                return all(closed(x) for x in e.elts)
+            if isinstance(e, ast.Dict):
+                return all(k is not None and closed(k) and closed(x) for k, x in zip(e.keys, e.values))
+            return False
+
+        if not closed(v):
+            return None
+        # written anywhere?  NAME[...] = .. / del NAME[...] / NAME.mutator(..) / NAME op= .. / global NAME
+        for mod in self.model.modules.values():
+            for n in ast.walk(mod.tree):
+                tgt = None
+                if isinstance(n, ast.Subscript) and isinstance(n.ctx, (ast.Store, ast.Del)):
+                    tgt = n.value
+                elif isinstance(n, ast.Call) and isinstance(n.func, ast.Attribute) and n.func.attr in MUTATORS:
+                    tgt = n.func.value
+                elif isinstance(n, ast.AugAssign):
+                    tgt = n.target
+                elif isinstance(n, ast.Global) and name in n.names:
+                    return None
+                if tgt is None:
+                    continue
+                while isinstance(tgt, ast.Subscript):
+                    tgt = tgt.value
+                if (isinstance(tgt, ast.Name) and tgt.id == name) or (isinstance(tgt, ast.Attribute) and tgt.attr == name):
+                    return None
+        import types
+
+        ctx = types.SimpleNamespace(module=m, qname=f"{m.name}.<module>", cls=None, node=None, params=[], is_generator=False)
+        try:
+            res = self.eval(v, State({}), ctx)  # type: ignore[arg-type]
+        except Exception:  # noqa: BLE001
+            return None
+        if len(res) != 1:
+            return None
+        self._table_cache[key] = res[0][1]
+        return res[0][1]
+
     def lookup(self, name: str, state: State, func: Func, line: int) -> Term:
         if name in state.env:
             return state.env[name]
@@ -1473,6 +1620,9 @@ class Evaluator:
                 m, v = r[1], r[2]
                 if isinstance(v, ast.Constant):
                     return const(v.value)
+                lit = self._constant_table(m, name, v)
+                if lit is not None:
+                    return lit
                 g = ("global", f"{m.name}.{name}")
                 # instance of a repo class, e.g.  P = ProbabilityBuilderType()
                 if isinstance(v, ast.Call) and isinstance(v.func, ast.Name):
@@ -1825,7 +1975,7 @@ class Evaluator:
         gens = []
         for gi, g in enumerate(e.generators):
             it = first_iter if (gi == 0 and first_iter is not None) else self.eval1(g.iter, s, func)
-            pat = self._bind_target(g.target, s)
+            pat = self._bind_target(g.target, s, it)
             self._type_bound(pat, it)
             conds = tuple(self.as_cond(self.eval1(c, s, func)) for c in g.ifs)
             if it[0] == "call" and isinstance(it[1], str) and it[1].split(".")[-1] == "product" and len(it[2]) == 1 and dict(it[3]).get("repeat") == const(2) and len(it[3]) == 1:
@@ -2439,7 +2589,10 @@ class Evaluator:
             items = self._literal_items(xs)
             v = self.fresh("m_")
             et = self.elem_type(xs)
-            if et is not None:
+            if self._yields_pairs(xs) or (xs[0] == "comp" and xs[1] in ("list", "gen") and is_term(xs[2]) and xs[2][0] == "tuplelit" and len(xs[2][1]) == 2):
+                v = ("tuplelit", (self.fresh("m0_"), self.fresh("m1_")))
+                self._type_bound(v, xs)
+            elif et is not None:
                 self.set_type(v, et)
             if name == "map" and xs[0] == "comp" and xs[1] in ("list", "gen"):
                 # map(f, [g(d) for d in D]) = (f(g(d)) for d in D)
@@ -2447,6 +2600,8 @@ class Evaluator:
                 if len(res) == 1 and res[0][1][0] != "apply":
                     return [(state, ("comp", "gen", res[0][1], xs[3]))]
             res = self.apply(fn, [v], {}, state, func, line) if fn != NONE else [(state, v)]
+            if len(res) > 1 and all(st_ is not None for st_, _ in res):
+                res = [(state, self._fold(res, state))]
             if len(res) == 1 and res[0][1][0] != "apply":
                 body = res[0][1]
                 if name == "map":
@@ -2602,6 +2757,12 @@ class Evaluator:
             return [(state, res)]
         if name in SET_PRED_METHODS and len(args) == 1:
             a = args[0]
+            if a[0] in ("tuplelit", "listlit", "setlit") and name in ("issuperset", "isdisjoint") and not any(x[0] == "star" for x in a[1]):
+                # S.issuperset((u, v))  is  u in S and v in S;  S.isdisjoint((u, v))  is  u not in S and v not in S
+                cs = [self.compare(ast.In(), x, recv) for x in a[1]]
+                if name == "isdisjoint":
+                    cs = [self.negate(c) for c in cs]
+                return [(state, self.mk_bool("and", cs) if cs else TRUE)]
             if name == "issubset":
                 return [(state, ("subset", recv, a))]
             if name == "issuperset":
